@@ -11,6 +11,7 @@
 From Coq Require Import Reals List Bool Arith NArith.
 From Coquelicot Require Import Complex.
 From QV Require Import Sem Mat2 Toff2 Chain UcrPlaced TopDownWalk Cvoqram CvoLoop CvoModel CvoGates CvoAux.
+From QV Require McxModel IrProps FnSem PivotCert.
 Import ListNotations.
 
 Theorem C06_cvo_step : forall (u : nat) (ctl : list nat), ~ In u ctl -> NoDup ctl ->
@@ -53,3 +54,20 @@ Print Assumptions C06_cvo_gates_aux.
 
 Example ex_ordered : ordered_b (map (ctl_of 3) [[true; false; false]; [false; true; false]; [false; true; true]]) = true.
 Proof. vm_compute. reflexivity. Qed.
+
+(* PivotInitialize (no auxiliary qubits): the pivoting gates Q that follow the dense preparation are classical (X, CX, multi-controlled
+   X); for EVERY such circuit and every finite superposition l, a dense state that carries each amplitude at the image
+   scls (rev Q) key  is turned by Q into exactly  sum a_key |key> : the listed amplitudes on the listed basis states, zero elsewhere.
+   The harness evaluates, inside Coq and on the emitted gates, the side conditions and that the dense vector handed to the dense
+   preparation is indexed by those images. *)
+Theorem C06_pivot_cert : forall (Q : list McxModel.sgate) (l : list FnSem.entry),
+  forallb PivotCert.sclassicalb Q = true -> forallb PivotCert.swfb Q = true ->
+  McxModel.srun Q (FnSem.den (map (fun e => (fst e, PivotCert.scls (rev Q) (snd e))) l)) = FnSem.den l.
+Proof. exact PivotCert.pivot_cert_b. Qed.
+Print Assumptions C06_pivot_cert.
+
+(* a classical circuit acts on a superposition by moving its basis states *)
+Theorem C06_classical_moves_basis : forall (P : list McxModel.sgate), Forall PivotCert.sclassical P -> Forall IrProps.swf P ->
+  forall l, McxModel.srun P (FnSem.den l) = FnSem.den (map (fun e => (fst e, PivotCert.scls P (snd e))) l).
+Proof. exact PivotCert.srun_den. Qed.
+Print Assumptions C06_classical_moves_basis.
